@@ -4,7 +4,7 @@
                                               (k = 0: entry points; k > 0: activation of the recursive loop whose PushLoop is
                                                at p, called from the site before r, capturing iff cap = 1)
    c05-main   stream                       -> [1] | [0; pc]       entry-point analysis only (calls summarised)
-   c05-ann    stream                       -> per pc: reachable?, #frames, captures, auto-escapes, operand slots
+   c05-ann    stream                       -> per pc: #shapes, and of the first: #frames, captures, auto-escapes, operand slots
    c05-stats  stream                       -> [#recursive loops; #call sites; #region analyses]
    c05-trace  stream  ntraces trace..  with trace := nobs (pc stk frames caps aes)..   -> [1; observations] | [0; trace; index; reason; pc; observed pc] (C05/Trace.v)
    c05-rec    template of the recursive-loop family + trees   -> expected output / expected failure (C05/RecLoop.v) *)
@@ -35,6 +35,7 @@ Definition dec_instr (tag a b : Z) : instr :=
   | 18 => IEndCapture
   | 20 => ICall (negb (Z.eqb a 0))
   | 21 => IRecurse
+  | 22 => ILoadBlocks
   | _ => IReturn
   end.
 
@@ -87,13 +88,13 @@ Definition run_main (inp : list Z) : list Z :=
   | None => [9]
   end.
 
-(* the inferred annotation of the entry-point analysis *)
+(* the inferred annotation of the entry-point analysis: per pc the number of shapes and the first one *)
 Definition ann_of (inp : list Z) : list Z :=
   match dec_stream inp with
   | Some (entries, C, _) =>
       flat_map (fun o => match o with
-                         | None => [0; 0; 0; 0; 0]
-                         | Some s => [1; Z.of_nat (length (frames s)); Z.of_nat (caps s); Z.of_nat (aes s); Z.of_nat (length (stk s))]
+                         | [] => [0; 0; 0; 0; 0]
+                         | s :: r => [Z.of_nat (S (length r)); Z.of_nat (length (frames s)); Z.of_nat (caps s); Z.of_nat (aes s); Z.of_nat (length (stk s))]
                          end) (annotate C entries)
   | None => [9]
   end.
